@@ -86,9 +86,9 @@ CLAIMED.update({
                     "iterates a finite iterable it does not extend; the resolved call graph is acyclic; no reachable external is non-terminating. "
                     "Hence the flux solver and every model with a finite step count return or raise, for all inputs.",
             "note": "Library routines are assumed to terminate. NOT decided: the number of iterations."},
-    "C16": {"technique": "static: effect/alias analysis with depth-indexed ownership; call-graph reachability; structural best-of pattern after def-use expansion; normal forms",
+    "C16": {"technique": "static: effect/alias analysis with depth-indexed ownership; call-graph reachability; inductive running-minimum argument on the decisions and accumulator values of every evaluated path; normal forms",
             "text": "Write sets of all fitting functions contain no pre-existing object; no random/clock source is reachable and start vector / method "
-                    "are constants; the selection loops match the best-of idiom on the caller's data; __call__/__mul__/from_array have the documented forms.",
+                    "are constants; on every path of the two searches each comparison is loss-vs-running-bound, a winner replaces bound and kept candidate together, the loss is the candidate's squared error over all of the caller's data, the bound starts at +inf / a positive constant and the kept candidate is returned; __call__/__mul__/from_array have the documented forms.",
             "note": "NOT decided: that the optimiser reaches an optimum; numeric equality of repeated fits beyond absence of nondeterminism sources."},
     "C17": {"technique": "static: normal-form evaluation of save/load over a model of pandas/json/joblib/pathlib (nothing is run or written); writer/reader tables read from the computed values; set / bijection comparison",
             "text": "Column sets, field->column->field identity with tuple positions, value/unit and value/type recombination, side-file naming and "
